@@ -201,44 +201,77 @@ def run(ctx, thorough=False):
     _glue(ctx, prog, cc, ib)
 
 
-def _glue(ctx, prog, cc, ib):
-    comp = util.find_one(ctx, suffix='constraints::Constraints::compliant')
-    cls = util.closure_bodies(prog, comp.path)
+def _triple_ok(a, ce, to, idx_t, angles_ok):
+    ce, to = strip(ce), strip(to)
+    return (isinstance(ce, tuple) and ce[0] == 'idx' and strip(ce[2]) == idx_t and isinstance(strip(ce[1]), tuple) and strip(ce[1])[0] == 'fld' and strip(ce[1])[2] == 'centers' and
+            isinstance(to, tuple) and to[0] == 'idx' and strip(to[2]) == idx_t and isinstance(strip(to[1]), tuple) and strip(to[1])[2] == 'tolerances' and angles_ok(strip(a)))
+
+
+def _all_joints_inside(ctx, prog, comp, ib):
+    """two idioms: iter().enumerate().all(closure) or a loop over 0..6 with `return false` on the failing edge"""
     alls = [(bi, t) for bi, t in comp.calls() if cname(callee_name(t)) == 'Iterator::all']
-    ok = len(alls) == 1 and len(cls) == 1
-    if ok:
+    cls = util.closure_bodies(prog, comp.path)
+    if len(alls) == 1 and len(cls) == 1:
         bi, t = alls[0]
         base, ad = util.iter_chain(comp.op_term(t['args'][0], (bi, None)))
-        ok = util.is_param(base, 2) and ad == ['iter', 'enumerate']
         rv = [strip(x[0]) for x in comp.return_values()]
-        ok = ok and len(rv) == 1 and rv[0] == strip(comp.call_term(t, (bi, None)))
-    ctx.check(ok, 'R07.3', 'compliant/all', comp.where(0), comp.path, 'compliant must be Iterator::all over every (index, angle) of the argument')
-    if cls:
+        if not (util.is_param(base, 2) and ad == ['iter', 'enumerate'] and len(rv) == 1 and rv[0] == strip(comp.call_term(t, (bi, None)))):
+            return False, 'all() does not run over every (index, angle) of the argument'
         c = cls[0]
         ctx.fn(c)
         rv = [strip(x[0]) for x in c.return_values()]
-        ok = False
-        found = None
         if len(rv) == 1 and isinstance(rv[0], tuple) and rv[0][0] == 'call' and rv[0][1] == ib.path:
-            a, ce, to = [strip(x) for x in rv[0][2:5]]
-            found = show(rv[0], maxdepth=6)
             i_t = ('fld', ('param', 2, c.name_of(2)), '0')
-            ok = (isinstance(ce, tuple) and ce[0] == 'idx' and strip(ce[2]) == i_t and strip(ce[1])[0] == 'fld' and strip(ce[1])[2] == 'centers' and
-                  isinstance(to, tuple) and to[0] == 'idx' and strip(to[2]) == i_t and strip(to[1])[2] == 'tolerances' and
-                  isinstance(a, tuple) and a[0] == 'fld' and a[2] == '1')
-        ctx.check(ok, 'R07.3', 'compliant/closure', c.where(0), c.path, 'each joint must be tested against centers[i] and tolerances[i] of its own index', found=found, detail=found or '')
+            ok = _triple_ok(rv[0][2], rv[0][3], rv[0][4], i_t, lambda a: isinstance(a, tuple) and a[0] == 'fld' and a[2] == '1')
+            return ok, 'all(|(i, angle)| inside(angle, centers[i], tolerances[i]))' if ok else 'closure tests %s' % show(rv[0], maxdepth=5)
+        return False, 'closure does not return the membership test'
+    calls = [(bi, t) for bi, t in comp.calls() if t['callee'].get('resolved') == ib.path]
+    if len(calls) == 1:
+        bi, t = calls[0]
+        a, ce, to = [comp.op_term(x, (bi, None)) for x in t['args']]
+        a = strip(a)
+        idx_t = strip(a[2]) if isinstance(a, tuple) and a[0] == 'idx' else None
+        src = util.loop_source(idx_t) if idx_t is not None else None
+        r = util.range_of(src) if src is not None else None
+        dom = r is not None and util.const_val(r[0]) == 0 and util.const_val(r[1]) == 6 and not [x for x in r[2] if x != 'into_iter']
+        trip = idx_t is not None and _triple_ok(a, ce, to, idx_t, lambda x: isinstance(x, tuple) and x[0] == 'idx' and util.is_param(x[1], 2))
+        ct = strip(comp.call_term(t, (bi, None)))
+        falses = trues = 0
+        for tt, d, rb in comp.return_values():
+            v = util.const_val(strip(tt))
+            gs = [(strip(g), opw.truth(k)) for g, k, sw in comp.guard_terms(d[1])]
+            if v in (0, False) and any(g == ct and tv is False for g, tv in gs):
+                falses += 1
+            elif v in (1, True) and not any(g == ct for g, tv in gs):
+                trues += 1
+            else:
+                return False, 'unexpected return value %s' % show(tt, maxdepth=3)
+        ok = dom and trip and falses == 1 and trues == 1
+        return ok, 'for i in 0..6 { if !inside(angles[i], centers[i], tolerances[i]) { return false } } true' if ok else 'loop domain=%s index agreement=%s returns false/true=%d/%d' % (dom, trip, falses, trues)
+    return False, 'neither Iterator::all nor a single membership test in a loop'
+
+
+def _glue(ctx, prog, cc, ib):
+    comp = util.find_one(ctx, suffix='constraints::Constraints::compliant')
+    okc, descc = _all_joints_inside(ctx, prog, comp, ib)
+    ctx.check(okc, 'R07.3', 'compliant', comp.where(0), comp.path,
+              'compliant must be the conjunction over all six joints of inside(angle_i, centers[i], tolerances[i]) with one index i: ' + descc, detail=descc)
     fl = util.find_one(ctx, suffix='constraints::Constraints::filter')
-    names = [cname(callee_name(t)) for _, t in fl.calls()]
-    fcl = util.closure_bodies(prog, fl.path)
-    ok = names == ['IntoIterator::into_iter', 'Iterator::filter', 'Iterator::cloned', 'Iterator::collect'] or \
-        (('Iterator::filter' in names) and not any(n.split('::')[-1] in (opw.VEC_REORDER | opw.VEC_REMOVERS | (opw.ITER_DROPPERS - {'filter'})) for n in names))
-    pol = False
-    if len(fcl) == 1:
-        ctx.fn(fcl[0])
-        rv = [strip(x[0]) for x in fcl[0].return_values()]
-        pol = len(rv) == 1 and isinstance(rv[0], tuple) and rv[0][0] == 'call' and rv[0][1] == comp.path and \
-            mir.contains(rv[0][3], lambda x: x[0] == 'param' and x[1] == 2)
-    ctx.check(ok and pol, 'R07.3', 'filter', fl.where(0), fl.path, 'filter must keep exactly the elements for which compliant() is true, in order', found=names)
+
+    def pred(body, g, elem):
+        if g[1] != comp.path:
+            return None
+        from .C11 import _unenv
+        recv = strip(_unenv(g[2]))
+        e = g[3]
+        while isinstance(e, tuple) and e[0] in ('ref', 'deref'):
+            e = e[1]
+        el = elem
+        while isinstance(el, tuple) and el[0] in ('ref', 'deref'):
+            el = el[1]
+        return True if (util.is_param(recv, 1) and e == el) else None
+    okf, desc = util.subsequence_filter(prog, fl, 2, pred)
+    ctx.check(okf, 'R07.3', 'filter', fl.where(0), fl.path, 'filter must keep exactly the elements for which compliant() is true, in order: ' + desc, detail=desc)
     # constructors
     for name in ('new', 'from_degrees', 'update_range'):
         b = util.find_one(ctx, suffix='constraints::Constraints::' + name)
